@@ -1056,7 +1056,7 @@ def run(ctx):
         if kind == 'history':
             for st, m in zip(data, marks):
                 ans = out[base_i + m['op']]
-                mstatus = 'ok' if ans.startswith('ok') else 'err:' + ans.split(' ')[1]
+                mstatus = 'ok' if ans.startswith('ok') else 'err:' + (ans.split(' ') + ['refused'])[1]
                 ctx.traces_validated += 1
                 if m.get('impl') and st['status'] != 'ok':
                     break
